@@ -1,5 +1,38 @@
 //! Container, scc, DOT and serde requests (C11, C12, C13, C18). Expanded inside each flavour module.
 
+/// C20 script: `-` or `;`-separated entries `<i>=<op>/<op>` (at step i) or `*<n>=<op>/<op>` (at every step < n)
+pub struct ScriptEntry {
+    pub at: Option<usize>,
+    pub below: usize,
+    pub ops: Vec<crate::exec_conc::Call2>,
+}
+pub fn parse_script(s: &str) -> Vec<ScriptEntry> {
+    if s == "-" || s.is_empty() {
+        return vec![];
+    }
+    s.split(';')
+        .filter_map(|ent| {
+            let (w, ops) = ent.split_once('=')?;
+            let ops = ops
+                .split('/')
+                .filter(|x| !x.is_empty())
+                .map(|c| {
+                    let p: Vec<&str> = c.split('.').collect();
+                    let n = |i: usize| p.get(i).and_then(|x| x.parse::<usize>().ok()).unwrap_or(0);
+                    crate::exec_conc::Call2 { kind: p[0].to_string(), a: n(1), b: n(2), e: n(3) as u32 }
+                })
+                .collect();
+            Some(match w.strip_prefix('*') {
+                Some(n) => ScriptEntry { at: None, below: n.parse().unwrap_or(0), ops },
+                None => ScriptEntry { at: Some(w.parse().unwrap_or(0)), below: 0, ops },
+            })
+        })
+        .collect()
+}
+pub fn ops_at(sc: &[ScriptEntry], i: usize) -> Vec<crate::exec_conc::Call2> {
+    sc.iter().filter(|e| e.at == Some(i) || (e.at.is_none() && i < e.below)).flat_map(|e| e.ops.clone()).collect()
+}
+
 pub type Doc = (Vec<(usize, i64)>, Vec<(usize, usize, u32)>);
 
 /// independent typing of a JSON document for the model (`@abs=` annotation):
